@@ -81,7 +81,11 @@ class FunctionNode(ConfigDict):
 
     @namespace('ayns')
     def represent(self):
-        return self.ayns.tag, self.ayns.get_node_info_to_save(), super()._get_value()
+        metadata = self.ayns.get_node_info_to_save()
+        if metadata.get('delete') is True:
+            # the constructor sets delete=True itself whenever the flag is not given
+            metadata['delete'] = None
+        return self.ayns.tag, metadata, super()._get_value()
 
     @namespace('ayns')
     @property
